@@ -251,7 +251,7 @@ func (g *Gen) cellFrom(f Frame, name string) Cell {
 
 var deriveKinds = []string{"head", "tail", "rowslice", "filter", "loc", "iloc", "multiselect", "sort", "shift", "dedup", "join", "add", "apply", "describe", "resample", "groupagg", "csvroundtrip"}
 var editKinds = []string{"appendrow", "droprow", "fillna", "dropna", "astype", "datetime", "rename", "addcolumn", "dropcolumn", "setcell", "dedupinplace"}
-var observeKinds = []string{"groupby", "tocsv", "row", "columnnames", "nrows", "ncols", "agg"}
+var observeKinds = []string{"groupby", "tocsv", "row", "columnnames", "nrows", "ncols", "agg", "string", "select", "colat", "series", "plot", "groupbyother"}
 
 // genOp draws arguments for an operation of the given kind on the current pool.
 // bad = probability of deliberately invalid arguments.
@@ -281,6 +281,7 @@ func (g *Gen) genOp(kind string, pool []Frame, bad float64) Op {
 		for i := 0; i < k; i++ {
 			o.Keep = append(o.Keep, g.chance(p))
 		}
+		o.Alt = g.chance(0.3)
 	case "loc":
 		k := g.r.Intn(4)
 		for i := 0; i < k; i++ {
@@ -355,7 +356,39 @@ func (g *Gen) genOp(kind string, pool []Frame, bad float64) Op {
 			// typed slices are not scalar cells row-wise: keep to the []any / single-value menu
 			o.Fn = []int{0, 1, 2, 3, 7, 8}[g.r.Intn(6)]
 		}
-	case "describe", "csvroundtrip", "tocsv", "columnnames", "nrows", "ncols", "dropna":
+	case "describe", "csvroundtrip", "tocsv", "columnnames", "nrows", "ncols", "dropna", "string":
+	case "select":
+		o.S1 = g.oneName(f, bad)
+	case "colat", "series":
+		o.S1 = g.oneName(f, bad)
+		o.N = g.countArg(n)
+		if n > 0 && g.chance(0.6) {
+			o.N = int64(g.r.Intn(n))
+		}
+	case "plot":
+		o.Bar = g.chance(0.5)
+		o.PathOK = !g.chance(0.15)
+		o.S1 = g.oneName(f, bad)
+		o.S2 = g.oneName(f, bad)
+		// prefer columns that hold only float64 cells, when there are any
+		fl := []BStr{}
+		for _, c := range f.Cols {
+			all := true
+			for _, v := range c.Data {
+				if v.T != "f64" {
+					all = false
+				}
+			}
+			if all {
+				fl = append(fl, c.Key)
+			}
+		}
+		if len(fl) > 0 && g.chance(0.8) {
+			o.S1 = fl[g.r.Intn(len(fl))]
+			o.S2 = fl[g.r.Intn(len(fl))]
+		}
+	case "groupbyother":
+		o.KeyKind = g.r.Intn(7)
 	case "resample":
 		o.S1 = g.oneName(f, bad)
 		for _, c := range f.Cols {
